@@ -38,20 +38,30 @@ Theorem C12_ack_matches : forall c h t m r,
 Proof. exact ack_matches_all. Qed.
 Print Assumptions C12_ack_matches.
 
-(* Requests that cannot be honoured (another server selected; unknown, freed or
-   mismatching lease; address outside the client's subnet) are never ACKed. *)
-Theorem C12_no_ack_when : forall c h t m,
-  In t (trace c (init c) h) -> op_msg (t_op t) = Some m ->
-  c12_no_ack_when c (t_pre t) m (t_reply t) = true.
-Proof. exact no_ack_when_all. Qed.
-Print Assumptions C12_no_ack_when.
+(* Requests that cannot be honoured (another server selected; unknown, freed, EXPIRED or
+   mismatching lease; address outside the client's subnet) are never ACKed — FALSE of the
+   faithful model: finding c12-expired-lease-acked (only the renewing path compares the
+   lease's expiry with the clock; selecting / rebooting / rebinding ACK a lease whose
+   DHCPExpiry has passed and which MinuteTicker has not freed yet). *)
+Theorem C12_no_ack_when_refuted : exists c h t m r,
+  In t (trace c (init c) h) /\ op_msg (t_op t) = Some m /\ t_reply t = Some r /\
+  r_type r = RAck /\ cannot_honour c (t_pre t) m (op_now (t_op t)) = true.
+Proof. exact no_ack_when_refuted. Qed.
+Print Assumptions C12_no_ack_when_refuted.
 
-(* The spec column of D12 (failed C12 demands per step on the model's trace) is empty
-   along every history: every alarm of the run is a model/implementation disagreement. *)
-Theorem C12_spec_column_never_fails : forall c h t,
-  cfg_ok c -> In t (trace c (init c) h) -> c12_fails c t = [].
-Proof. exact c12_fails_nil. Qed.
-Print Assumptions C12_spec_column_never_fails.
+(* True on the complement of exactly that class. *)
+Theorem C12_no_ack_when_partial : forall c h t m,
+  In t (trace c (init c) h) -> op_msg (t_op t) = Some m ->
+  known_c12_expired t = false ->
+  c12_no_ack_when c (t_pre t) m (op_now (t_op t)) (t_reply t) = true.
+Proof. exact no_ack_when_partial. Qed.
+Print Assumptions C12_no_ack_when_partial.
+
+(* The spec column of D12 is empty along every history outside the recorded class. *)
+Theorem C12_spec_column_partial : forall c h t,
+  cfg_ok c -> In t (trace c (init c) h) -> known_c12_expired t = false -> c12_fails c t = [].
+Proof. exact c12_fails_partial. Qed.
+Print Assumptions C12_spec_column_partial.
 
 (* A lease file left behind by a run with other prefix lengths does not change the
    configuration in force (configChanged as repaired by e01fd08): the handler then
@@ -74,7 +84,7 @@ Print Assumptions C12_live_example.
 
 Example C12_nak_example :
   let t := hd (mkT (init wcfg) ch0 (OTick 0) None (init wcfg)) (trace wcfg (init wcfg) (with_ch0 w12_unknown)) in
-  cannot_honour wcfg (t_pre t) (dmsg0 c3 0 (Some ipA) us) = true /\
+  cannot_honour wcfg (t_pre t) (dmsg0 c3 0 (Some ipA) us) 0 = true /\
   option_map r_type (t_reply t) = Some RNak.
 Proof. exact nak_example. Qed.
 Print Assumptions C12_nak_example.
